@@ -14,6 +14,14 @@ inductive PyExc where
   | outOfFuel      -- a `while` loop used up the fuel it was given: the Python loop had not ended after that many rounds
 deriving DecidableEq, Repr
 
+/-- the model objects the readers build: `IRI(content)`, `BNode(identifier)`, `Literal(content, elem_type)`, `Property(content)` -/
+inductive Obj where
+  | iri (content : List Char)
+  | bnode (identifier : List Char)
+  | lit (content elemType : List Char)
+  | prop (content : List Char)
+deriving DecidableEq, Repr
+
 def findFrom (l pat : List Char) : Nat → Option Nat
   | i => if i + pat.length > l.length then none
          else if pat.isPrefixOf (l.drop i) then some i else findFrom l pat (i + 1)
